@@ -407,7 +407,7 @@ def run_job(job):
         acc.sample({"curve": cv, "keys_mod": job["shard"], "digests": len(zs), "draws": C.n})
     elif part == "small-bytes":
         C = smallcurve.curve(cv)
-        msgs = [b"", b"\x00", filler(seed, "c01-m32", 32), filler(seed, "c01-m100", 100)]
+        msgs = [b"", b"\x00", filler(seed, "c01-m32", 32), filler(seed, "c01-m100", 100), b"deadbeefcafebabe0123456789abcdef", b"00 01\n"]
         for d in range(1, C.n):
             for flag in FLAGS:
                 for pre in (False, True):
